@@ -519,7 +519,7 @@ impl<'a> Gen<'a> {
         if self.rng.chance(1, 5) {
             v.push(self.if_stmt(0));
         } else if self.rng.chance(1, 12) {
-            v.push(Stmt::Rem(self.rng.pick(&[" note", "", " IF THEN ELSE : PRINT", " é"]).to_string()));
+            v.push(Stmt::Rem(self.rng.pick(&[" note", "", " IF THEN ELSE : PRINT", " é", " padded   ", "\t"]).to_string()));
         }
         v
     }
@@ -556,6 +556,16 @@ impl<'a> Gen<'a> {
                 12 => self.counted_goto_loop(budget),
                 13 if self.rng.below(100) < self.k.wild_goto_pct => {
                     self.push_line(vec![Stmt::Goto(u64::MAX - 1)]);
+                }
+                13 if self.rng.chance(1, 3) => {
+                    // a chain of lines that are nothing but GOTO <the following line>
+                    let n = 2 + self.rng.usize(3);
+                    for _ in 0..n {
+                        let here = self.lines.len();
+                        self.push_line(vec![Stmt::Goto(u64::MAX - 2 - (here as u64 + 1))]);
+                    }
+                    let l = vec![self.tag()];
+                    self.push_line(l);
                 }
                 _ => {
                     let l = self.simple_line();
@@ -810,18 +820,25 @@ impl<'a> Gen<'a> {
             let at = self.lines.len();
             self.sub_entries.push(at);
             let depth = self.rng.pick(&[31.0, 32.0, 33.0]);
-            self.push_line(vec![
-                Stmt::Let {
-                    kw: false,
-                    target: LValue { name: "Z".into(), index: None },
-                    e: Expr::Bin(BinOp::Add, Box::new(Expr::Var("Z".into())), Box::new(Expr::Num(1.0))),
-                },
-                Stmt::If {
-                    cond: Expr::Bin(BinOp::Lt, Box::new(Expr::Var("Z".into())), Box::new(Expr::Num(depth))),
-                    then: Branch::Stmts(vec![Stmt::Gosub(u64::MAX - 3 - at as u64)]),
-                    els: None,
-                },
-            ]);
+            let count = Stmt::Let {
+                kw: false,
+                target: LValue { name: "Z".into(), index: None },
+                e: Expr::Bin(BinOp::Add, Box::new(Expr::Var("Z".into())), Box::new(Expr::Num(1.0))),
+            };
+            let recurse = Stmt::If {
+                cond: Expr::Bin(BinOp::Lt, Box::new(Expr::Var("Z".into())), Box::new(Expr::Num(depth))),
+                then: Branch::Stmts(vec![Stmt::Gosub(u64::MAX - 3 - at as u64)]),
+                els: None,
+            };
+            if self.rng.chance(1, 2) {
+                self.push_line(vec![count, recurse]);
+            } else {
+                // the GOSUB that fails sits on another line than the line it targets
+                self.push_line(vec![count]);
+                let t = self.tag();
+                self.push_line(vec![t]);
+                self.push_line(vec![recurse]);
+            }
             // at the deepest level a user function is called: with `depth` frames on the shared stack
             // the call needs frame depth+1 (31 -> fine, 32 -> refused)
             if !self.funcs.is_empty() && self.rng.chance(2, 3) {
